@@ -7,7 +7,7 @@
     combine and merge: proved over all schedules (Inv_threads_combine.v, Inv_threads_merge.v).
     [at_most_one_err n fins] is the property's own quantifier ("at most one member failing"). *)
 From CB Require Import Threads ThreadSpec ThreadsFine Inv_threads_combine Inv_threads_merge Inv_threads_fine
-  Inv_threads_combine_fine Inv_threads_total.
+  Inv_threads_combine_fine Inv_threads_total Inv_threads_always.
 
 Theorem C18_combine_no_panic (n : nat) (qs : nat -> list val) (fins : nat -> final) :
   1 <= n -> forall s, cb_reach n qs fins s ->
@@ -257,8 +257,20 @@ Print Assumptions C18_combine_fine_run_total.
 Theorem C18_merge_always_passes n qs fins sch fuel :
   1 <= n -> at_most_one_err n fins -> fuel >= merge_fuel n qs n ->
   merge_check n qs fins (rev (mgs_tr (run_full (mg_step n) mg_finished n sch fuel (mg_init n qs fins)))) = [].
-Proof.
-  intros Hn Ha Hf. apply (@merge_driver_final n qs fins n sch fuel Hn Ha).
-  exact (@merge_run_full_total n qs fins n sch fuel Hf).
-Qed.
+Proof. exact (@merge_always_passes n qs fins sch fuel). Qed.
 Print Assumptions C18_merge_always_passes.
+
+(** ... and for combine!, any endings *)
+Theorem C18_combine_always_passes n qs fins sch fuel :
+  1 <= n -> fuel >= combine_fuel n qs n ->
+  combine_check n qs fins (rev (cbs_tr (run_full (cb_step true n) cb_finished n sch fuel (cb_init n qs fins)))) = [].
+Proof. exact (@combine_always_passes n qs fins sch fuel). Qed.
+Print Assumptions C18_combine_always_passes.
+
+(** ... and at the granularity of every access *)
+Theorem C18_merge_fine_always_passes n qs fins sch fuel :
+  1 <= n -> at_most_one_err n fins -> fuel >= merge_fine_fuel n qs n ->
+  merge_check_fine n qs fins
+    (rev (mfs_tr (run_full (mf_step true n) mf_finished n sch fuel (mf_init true n qs fins)))) = [].
+Proof. exact (@merge_fine_always_passes n qs fins sch fuel). Qed.
+Print Assumptions C18_merge_fine_always_passes.
